@@ -23,13 +23,17 @@ ASSUMPTIONS = ['membership of a character in \\p{..}, \\d, \\w, \\i, \\c is asse
                'known finding C11-backref-escape: \\<digit> in the schema dialect is not generated as a malformed pattern',
                'search dialect: asserted are the boolean verdict (some substring is a member), the match start (leftmost) and that the reported '
                'match is a member; WHICH of several possible ends is reported is implementation-defined and only used for consistency checks']
-BUDGET = {"quick": 200, "thorough": 14000}
+BUDGET = {"quick": 450, "thorough": 4000}
 WALLCAP = {'quick': 420, 'thorough': 2700}
 
 EXCLUDE_FIRST_SUCCESS = os.environ.get('C11_NO_EXCLUDE', '') == ''      # set C11_NO_EXCLUDE=1 once the finding is fixed in the tree
 F_FIRST = 'C11-schema-first-success'
 F_BACKREF = 'C11-backref-escape'
 F_FIXEDEND = 'C11-fixedstring-endpos'
+F_RECURSION = 'C11-nested-nullable-closure-recursion'
+F_HEAD_ANY = 'C11-headchar-dot-swallowed'
+F_HEAD_SURR = 'C11-headchar-surrogate'
+EXCLUDE_RECURSION = os.environ.get('C11_NO_EXCLUDE_RECURSION', '') == ''
 
 def literal_only(n):
     """the non-schema compiler turns such a pattern into ONE string/char operation ("fixed string only" Boyer-Moore path)"""
@@ -131,6 +135,8 @@ def build_subjects(c, lang, syms, tier):
 # ------------------------------------------------------------------------------------------------------------------
 def check_pattern(c, ex, st_, tier):
     ast = c['ast']
+    if EXCLUDE_RECURSION and rm.nested_nullable_closure(ast):
+        st_.excluded_known[F_RECURSION] += 1; return        # known finding: unbounded recursion (stack overflow) in RegularExpression::match
     try:
         lang0 = rm.Lang(ast)
     except rm.TooBig:
@@ -325,7 +331,8 @@ def check_search(c, ast, lang_schema, ex, st_, subjects, nshort):
     st_.labels['search-case'] += 1
     st_.labels['search-opts:' + (sopts or '-')] += 1
     res = {}
-    for o in (sopts, sopts + 'F', sopts + 'H', 'H' + sopts + 'F'):
+    baseo = sopts + 'H'
+    for o in (baseo, sopts, sopts + 'F', 'H' + sopts + 'F'):
         try:
             head, v = call(ex, 'regex', text, o, subset, 'rp')
         except Watchdog:
@@ -336,27 +343,33 @@ def check_search(c, ast, lang_schema, ex, st_, subjects, nshort):
             raise PropertyFailure({'kind': 'wellformed', 'pattern': text, 'opts': o}, 'well-formed pattern %r (non-schema dialect, opts %r) rejected: %s' % (text, o, head))
         res[o] = v
     st_.extra['search_verdicts'] = st_.extra.get('search_verdicts', 0) + len(subset)
-    base = res[sopts]
+    base = res[baseo]
     litonly = literal_only(ast)
+    hasdot = any(n[0] == 'dot' for n in rm.walk(ast))
     for s, f, got in zip(subset, exp, base):
         if f == 'drop': continue
-        mk = lambda detail, expected: PropertyFailure({'kind': 'search', 'pattern': text, 'opts': sopts, 'subject': s, 'expected': expected}, detail)
+        mk = lambda detail, expected: PropertyFailure({'kind': 'search', 'pattern': text, 'opts': baseo, 'subject': s, 'expected': expected}, detail)
         if (got[0] == '1') != (f is not None):
-            raise mk('non-schema pattern %r opts %r subject %r: matches=%s, model/re say a matching substring %s' % (text, sopts, s, got, 'exists' if f else 'does not exist'), None if f is None else [f[0], sorted(f[1])])
+            raise mk('non-schema pattern %r opts %r subject %r: matches=%s, model/re say a matching substring %s' % (text, baseo, s, got, 'exists' if f else 'does not exist'), None if f is None else [f[0], sorted(f[1])])
         if f is not None:
             g0 = got.split('\t')[1].split(';')[0]; a, b = [int(x) for x in g0.split(',')]
             us = u16len(s[:f[0]]); ends = sorted(u16len(s[:e]) for e in f[1])
             if litonly and [us + u16len(text)] != ends:
                 st_.excluded_known[F_FIXEDEND] += 1      # known finding: end = start + length of the pattern SOURCE
-                if a != us: raise mk('non-schema pattern %r opts %r subject %r: match reported at %d..%d; leftmost start is %d' % (text, sopts, s, a, b, us), [f[0], sorted(f[1])])
+                if a != us: raise mk('non-schema pattern %r opts %r subject %r: match reported at %d..%d; leftmost start is %d' % (text, baseo, s, a, b, us), [f[0], sorted(f[1])])
             elif a != us or b not in ends:
-                raise mk('non-schema pattern %r opts %r subject %r: match reported at %d..%d; leftmost start is %d and the possible ends are %r' % (text, sopts, s, a, b, us, ends), [f[0], sorted(f[1])])
+                raise mk('non-schema pattern %r opts %r subject %r: match reported at %d..%d; leftmost start is %d and the possible ends are %r' % (text, baseo, s, a, b, us, ends), [f[0], sorted(f[1])])
     for o, v in res.items():
+        if o == baseo: continue
         for s, x, y in zip(subset, base, v):
+            if 'H' not in o:
+                # known findings in the head-character optimisation (option H switches it off)
+                if hasdot: st_.excluded_known[F_HEAD_ANY] += 1; continue
+                if any(ord(ch) > 0xFFFF for ch in s): st_.excluded_known[F_HEAD_SURR] += 1; continue
             if x.split('\t')[0] != y.split('\t')[0] or (x[0] == '1' and x.split('\t')[1].split(';')[0] != y.split('\t')[1].split(';')[0]):
-                raise PropertyFailure({'kind': 'equal', 'pattern': text, 'pos': True, 'a': {'opts': sopts, 'mode': 'rp', 'subjects': [s], 'wins': None, 'pick': 0},
+                raise PropertyFailure({'kind': 'equal', 'pattern': text, 'pos': True, 'a': {'opts': baseo, 'mode': 'rp', 'subjects': [s], 'wins': None, 'pick': 0},
                                        'b': {'opts': o, 'mode': 'rp', 'subjects': [s], 'wins': None, 'pick': 0}},
-                                      'non-schema pattern %r subject %r: %r with opts %r but %r with opts %r' % (text, s, x, sopts, y, o))
+                                      'non-schema pattern %r subject %r: %r with opts %r but %r with opts %r' % (text, s, x, baseo, y, o))
     # tokenize / replace / allMatches consistency (pattern must not match the empty string: documented RuntimeException otherwise)
     nullable = lang.accepting(lang.start)
     try:
@@ -364,7 +377,7 @@ def check_search(c, ast, lang_schema, ex, st_, subjects, nshort):
         hA, am = call(ex, 'allmatches', text, sopts, subset) if not nullable else ('C\tOK', [''] * len(subset))
         hT, tk = call(ex, 'tokenize', text, sopts, subset)
         hR, rp = call(ex, 'replace', text, sopts, subset, rep=c['repl'])
-        hP, pm = call(ex, 'regex', text, sopts, subset, 'rp')
+        hP, pm = call(ex, 'regex', text, sopts + 'H', subset, 'rp')
     except Watchdog:
         st_.inconclusive += 1; return
     except xv.ExecutorDied as e:
@@ -468,7 +481,7 @@ def replay(case, ctx):
 def _replay_tokrep(case, ex):
     text, o, s, rep = case['pattern'], case['opts'], case['subject'], case['rep']
     hA, am = call(ex, 'allmatches', text, o, [s]); hT, tk = call(ex, 'tokenize', text, o, [s]); hR, rp = call(ex, 'replace', text, o, [s], rep=rep)
-    hP, pm = call(ex, 'regex', text, o, [s], 'rp')
+    hP, pm = call(ex, 'regex', text, o + 'H', [s], 'rp')
     a, t, r, p = am[0], tk[0], rp[0], pm[0]
     if case.get('nullable'):
         ok = t.startswith('E\tXMLException\tRuntimeException') and r.startswith('E\tXMLException\tRuntimeException')
